@@ -148,6 +148,7 @@ def dispatch (op : String) (args : List Sexp) : String :=
   | "rawproto.export" => opRawProtoExport args
   | "rawproto.import" => opRawProtoImport args
   | "lef.lex" => opLefLex args
+  | "lef.states" => opLefStates args
   | "lef.enum" => opLefEnum args
   | "lef.dbu" => opLefDbu args
   | "lef.parse" => LefP.opLefParse args
